@@ -6,12 +6,14 @@ for all four state-machine kinds and every state table (potential = remaining in
 exact single transitions: contextual (mark + current substitution), insertion at the current and at the
 marked glyph (before/after, order, copies of the anchor), ligature pair (pops follow the action list,
 ligature at the stored position, 0xFFFF for the other component, min cluster at levels 0/1); paired
-reversals restore the order; flag/direction gating is exactly the code's test; chain flags = defaults
-without `feat`.
+reversals restore the order; flag/direction gating is exactly the code's test; chain flag compilation
+with a `feat` table and user features: one entry = (flags & disable) | enable, entries fold in table
+order, features absent from feat or without mapping change nothing, global / range-restricted ranges.
 Tie: generated morx fonts (harness/src/c17.rs, fontgen) printed as Coq `font` terms; rustybuzz::shape
 results (gid, cluster) compared with `shape_morx` by vm_compute (Corr/MorxC.v `summary`).
 Search: implementation-level oracles on restricted fonts (non-contextual map, rearrangement verb table by
-pattern, pair ligature, insertion before/after), a malformed-font stream (release and overflow-checked
+pattern, pair ligature, insertion before/after, range-restricted feature per glyph on non-contextual and
+contextual subtables, chain-flag compilation by an independent fold), a malformed-font stream (release and overflow-checked
 build, per-shape watchdog) and the corpus morx fonts under the generic predicates (no panic, clusters from
 the input, length bound); corpus/C17-*.json regression cases run first."""
 import base64
@@ -25,10 +27,13 @@ import common as C
 LEVEL = "proof"
 
 HDR = ("From Coq Require Import List NArith ZArith Bool.\n"
-       "From RB Require Import Base.Result Model.Buffer Model.Font Model.Morx Model.MorxPipe Corr.MorxC.\n"
+       "From RB Require Import Base.Result Model.Buffer Model.Font Model.Morx Model.MorxFeat Model.MorxPipe Corr.MorxC.\n"
        "Import ListNotations.\nLocal Open Scope N_scope.\n")
 
 SLOW_STREAM = {}
+CASES_SEEN = []
+FX = []      # cases whose result depends on the user features
+FEATS = {}   # font index -> Coq term of its feat table (option feat_table), well-formed stream of this run
 SLOW = []   # shapes abandoned by the harness watchdog (recorded in the evidence, not a C17 predicate)
 KINDS = ["rearrangement", "contextual", "ligature", "noncontextual", "insertion"]
 DIRS = {"ltr": "LTR", "rtl": "RTL", "ttb": "TTB", "btt": "BTT"}
@@ -41,7 +46,11 @@ def parse_req(req):
         for it in d["text"].split(","):
             c, k = it.split(":")
             text.append((int(c, 16), int(k)))
-    return text, d.get("dir", "ltr"), int(d.get("level", "0"))
+    ufs = []
+    if d.get("uf", "-") != "-":
+        for it in d["uf"].split(","):
+            ufs.append(tuple(int(x) for x in it.split(":")))
+    return text, d.get("dir", "ltr"), int(d.get("level", "0")), ufs
 
 
 def coq_pairs(ps):
@@ -49,7 +58,7 @@ def coq_pairs(ps):
 
 
 def coq_case(req, res):
-    text, d, lvl = parse_req(req)
+    text, d, lvl, ufs = parse_req(req)
     if res.startswith("ok"):
         body = res[2:].strip()
         out = [tuple(int(x) for x in it.split("=")) for it in body.split(",")] if body else []
@@ -59,7 +68,8 @@ def coq_case(req, res):
         o = "(EDigest %s %s)" % (n, h)
     else:
         o = "EPanic"
-    return "mkCase %s %d %s %s" % (DIRS[d], lvl, coq_pairs(text), o)
+    uf = "[" + "; ".join("mkUF %d %d %d %d" % u for u in ufs) + "]"
+    return "mkCase %s %d %s %s %s" % (DIRS[d], lvl, coq_pairs(text), uf, o)
 
 
 def heavy(res):
@@ -83,6 +93,11 @@ def run_gen(binp, seed, n, texts, stream, first=0):
         if line.startswith("font "):
             _, i, term = line.split(" ", 2)
             fonts[int(i)] = term
+        elif line.startswith("fx "):
+            FX.append(line)
+        elif line.startswith("feat "):
+            _, i, term = line.split(" ", 2)
+            FEATS[int(i)] = term
         elif line.startswith("case "):
             m = re.match(r"case (\d+) (\d+) (.*) -> (.*)$", line)
             cases.setdefault(int(m.group(1)), []).append((int(m.group(2)), m.group(3), m.group(4)))
@@ -112,9 +127,9 @@ def shape_b64(binp, b64, req, timeout=10):
     return out.strip()
 
 
-def diagnose(font_term, req, res):
+def diagnose(font_term, req, res, feat_term="None"):
     """Model's answer for one case (for the replay file)."""
-    body = HDR + "Definition f : font := %s.\nEval vm_compute in (diagnose f (%s)).\n" % (font_term, coq_case(req, res))
+    body = HDR + "Definition f : gfont := (%s, %s).\nEval vm_compute in (diagnose f (%s)).\n" % (font_term, feat_term or "None", coq_case(req, res))
     try:
         out = C.coq_eval("c17_diag_%d" % os.getpid(), body, timeout=150)
         l = C.parse_eval_lists(out)
@@ -129,6 +144,7 @@ def diagnose(font_term, req, res):
 def correspondence(chk, binp, n_fonts, texts, per_file, max_heavy):
     """Well-formed stream against the model. Returns (disagreements, stats)."""
     fonts, cases, generic, summary = run_gen(binp, chk.seed, n_fonts, texts, "wf")
+    CASES_SEEN.append([r for cs in cases.values() for _, r, _ in cs])
     ids = sorted(fonts)
     jobs = []
     index = {}
@@ -138,7 +154,7 @@ def correspondence(chk, binp, n_fonts, texts, per_file, max_heavy):
         body = HDR
         flat = []
         for i in chunk:
-            body += "Definition f%d : font := %s.\n" % (i, fonts[i])
+            body += "Definition f%d : gfont := (%s, %s).\n" % (i, fonts[i], FEATS.get(i, "None"))
             cs = [c for c in cases.get(i, []) if not heavy(c[2])]
             heavy_cases += [(i, j, r, o) for j, r, o in cases.get(i, []) if heavy(o)]
             body += "Definition c%d : list mcase := [\n%s].\n" % (i, ";\n".join(coq_case(r, o) for _, r, o in cs))
@@ -156,7 +172,7 @@ def correspondence(chk, binp, n_fonts, texts, per_file, max_heavy):
             chosen.append(hc)
     for n_, (i, j, r, o) in enumerate(chosen):
         name = "c17_heavy_%d" % n_
-        body = HDR + "Definition f%d : font := %s.\n" % (i, fonts[i])
+        body = HDR + "Definition f%d : gfont := (%s, %s).\n" % (i, fonts[i], FEATS.get(i, "None"))
         body += "Eval vm_compute in (summary [(f%d, [%s])]).\n" % (i, coq_case(r, o))
         jobs.append((name, body))
         index[name] = [(i, j, r, o)]
@@ -179,7 +195,7 @@ def correspondence(chk, binp, n_fonts, texts, per_file, max_heavy):
         for gi in l[1:1 + k]:
             i, j, r, o = index[name][gi]
             dis.append({"what": "model-and-implementation-differ", "font": i, "text": j, "request": r, "implementation": o[:2000],
-                        "font_term": fonts[i]})
+                        "font_term": fonts[i], "feat_term": FEATS.get(i, "None")})
         st = l[1 + k:]
         for key, v in zip(["cases", "agree", "outside_table", "outside_alloc", "both_fail"], st[:5]):
             tot[key] += v
@@ -263,6 +279,9 @@ def run_embedded_cases(binp, emb):
         if rc == 124:
             fails.append({"what": "corpus-regression-case", "corpus_file": path, "request": c["request"], "font_base64": c["font_base64"],
                           "why": "shaping did not finish within %d ms" % c.get("max_ms", 4000)})
+        elif out.startswith("ok") and "generic-fail" not in out and "expect" in c and out[2:].strip() != c["expect"]:
+            fails.append({"what": "corpus-regression-case", "corpus_file": path, "request": c["request"], "font_base64": c["font_base64"],
+                          "profile": c.get("profile", "release"), "why": "got %s, expected %s" % (out[2:].strip()[:200], c["expect"])})
         elif not out.startswith("ok") or "generic-fail" in out:
             fails.append({"what": "corpus-regression-case", "corpus_file": path, "request": c["request"], "font_base64": c["font_base64"],
                           "profile": c.get("profile", "release"), "why": out[:300]})
@@ -289,9 +308,9 @@ def run(chk):
     thorough = chk.tier == "thorough"
     chk.cov["rule"] = ("public API on generated morx fonts (all five subtable kinds, class tables in lookup formats 0/2/6/8, 2-6 states, random entry "
                        "flags, payload tables in range, coverage bits incl. vertical/backwards/all-directions/logical, several chains with default "
-                       "flags) x random PUA texts x directions LTR/RTL/TTB/BTT x cluster levels 0/1/2, compared with Model/MorxPipe.v shape_morx by "
+                       "flags and up to 5 feature entries with overlapping masks, optional feat table) x user features (on/off/aalt values/ranges/unmapped tags) x random PUA texts x directions LTR/RTL/TTB/BTT x cluster levels 0/1/2, compared with Model/MorxPipe.v shape_morx by "
                        "vm_compute; implementation-level oracles (non-contextual map, rearrangement verb table by pattern, pair ligature, insertion "
-                       "before/after at current and marked glyph); malformed-font stream and corpus morx fonts under no-panic / clusters-from-input / "
+                       "before/after at current and marked glyph, range-restricted features per glyph, chain flags with feat + liga/smcp requests); malformed-font stream and corpus morx fonts under no-panic / clusters-from-input / "
                        "length-bound. non-trivial = glyph string differs from the plain cmap mapping")
     pr = chk.prove(extra_targets=["Corr/MorxC.vo"])
     broken = []
@@ -318,8 +337,14 @@ def run(chk):
         chk.add_eval(v["runs"], v["changed"])
     chk.note("oracles", ostats)
     # ---- model correspondence
-    dis, tot, kinds, generic, fonts = correspondence(chk, binp, 1500 if thorough else 340, 16, 25, 24 if thorough else 3)
+    dis, tot, kinds, generic, fonts = correspondence(chk, binp, 1500 if thorough else 300, 16, 25, 24 if thorough else 3)
     chk.add_eval(tot["cases"], tot["moved"])
+    nuf = sum(1 for cs in CASES_SEEN for c in cs if "uf=-" not in c)
+    nrg = sum(1 for cs in CASES_SEEN for c in cs if "uf=" in c and "uf=-" not in c and
+              any(not u.endswith(":0:4294967295") for u in re.search(r"uf=(\S+)", c).group(1).split(",")))
+    chk.note("user_features", {"fonts_with_feat": sum(1 for v in FEATS.values() if v != "None"), "fonts": len(FEATS),
+                               "cases_with_user_features": nuf, "cases_with_range_restricted_features": nrg,
+                               "cases_whose_result_depends_on_the_features": len(FX)})
     chk.note("model_correspondence", tot)
     chk.note("subtable_kinds_ran_changed", {k: {"ran": v[0], "changed_string": v[1]} for k, v in kinds.items()})
     for g in generic:
@@ -347,7 +372,7 @@ def run(chk):
     if not okc:
         broken.append("checked-build-failed: " + blogc[-400:])
     else:
-        _, _, gc, sc = run_gen(binc, chk.seed, 3000 if thorough else 800, 8, "mal")
+        _, _, gc, sc = run_gen(binc, chk.seed, 3000 if thorough else 500, 8, "mal")
         mc = re.search(r"shapes=(\d+)", sc or "")
         chk.add_eval(int(mc.group(1)) if mc else 0, 0)
         chk.note("malformed_stream_shapes_checked_build", {"shapes": int(mc.group(1)) if mc else 0, "failures": len(gc)})
@@ -381,7 +406,7 @@ def run(chk):
         payload = dict(f)
         if "font" in f and isinstance(f["font"], int):
             d = dump_font(binp, chk.seed, f.get("stream", "wf"), f["font"])
-            payload.update({"font_spec": d.get("spec"), "font_base64": d.get("b64"), "font_coq": d.get("coq")})
+            payload.update({"font_spec": d.get("spec"), "font_base64": d.get("b64"), "font_coq": d.get("coq"), "feat_term": d.get("featcoq")})
         payload["how_to_replay"] = "./check C17 --replay <this file>"
         chk.violation(f["what"], payload)
         reported += 1
@@ -390,7 +415,7 @@ def run(chk):
         if "font" in d:
             dd = dump_font(binp, chk.seed, "wf", d["font"])
             payload.update({"font_spec": dd.get("spec"), "font_base64": dd.get("b64")})
-            payload["model_says"] = diagnose(d["font_term"], d["request"], d["implementation"])
+            payload["model_says"] = diagnose(d["font_term"], d["request"], d["implementation"], d.get("feat_term"))
             payload["how_to_replay"] = "./check C17 --replay <this file>"
             payload["note"] = ("rustybuzz::shape and the extended state-machine model (Model/MorxPipe.v shape_morx) give different glyphs/clusters "
                                "for this generated font and text")
@@ -405,8 +430,9 @@ def run(chk):
         "harness/src/fontgen (font writer + Coq printer of the same FontSpec), ttf-parser's morx/aat parsing is inside the compared implementation",
         "Model/Buffer.v (zipper buffer; validated separately against hb_buffer_t by random op sequences)"]
     chk.assumptions = C.DEFAULT_ASSUMPTIONS + [
-        "domain: no `feat` table (only chain default flags gate subtables), PUA text (default shaper, no GSUB/GPOS/kerx), table indices inside the "
-        "written arrays (runs that leave them are counted as outside_table and not compared), buffer length budget not exceeded (outside_alloc)",
+        "domain: PUA text (default shaper, no GSUB/GPOS/kerx); fonts with or without a `feat` table, user features (global and range-restricted) "
+        "through the mapping table extracted from the source; table indices inside the written arrays (runs that leave them are counted as "
+        "outside_table and not compared), buffer length budget not exceeded (outside_alloc)",
         "glyph flags (unsafe-to-break/concat) are not modelled or compared; glyph ids and clusters are"]
 
 
@@ -437,7 +463,7 @@ def replay(chk, path):
         print("request:", req)
         print("implementation now:", out)
         if body.get("font_coq") or body.get("font_term"):
-            m = diagnose(body.get("font_term") or body.get("font_coq"), req, out if out.startswith(("ok", "panic")) else "panic")
+            m = diagnose(body.get("font_term") or body.get("font_coq"), req, out if out.startswith(("ok", "panic")) else "panic", body.get("feat_term"))
             print("model:", m)
             if m.get("model") == "ok" and m.get("ambiguity_flags") == 0:
                 got = out[2:].strip().split(" generic-fail")[0].strip() if out.startswith("ok") else None
